@@ -304,11 +304,16 @@ def run_one(inst, s, sid):
 
 
 def run_impl(L, scenarios):
-    if "inst" not in _state or not all(i.sq.alive() for i in _state["inst"].values()):
-        org = L.origin()
-        _state["org"] = org
-        _state["inst"] = {"long": Inst(L, org, TTL_LONG, "long"), "short": Inst(L, org, TTL_SHORT, "short")}
+    if "inst" not in _state:
+        _state["org"] = L.origin()
+        _state["inst"] = {}
         _state["n"] = 0
+        _state["gen"] = 0
+    org = _state["org"]
+    for k, ttl in (("long", TTL_LONG), ("short", TTL_SHORT)):
+        if k not in _state["inst"] or not _state["inst"][k].sq.alive():
+            _state["gen"] += 1
+            _state["inst"][k] = Inst(L, org, ttl, "%s%d" % (k, _state["gen"]))
     jobs = []
     for s in scenarios:
         _state["n"] += 1
@@ -317,7 +322,10 @@ def run_impl(L, scenarios):
     def serve(j):
         try:
             j[1]["_sid"] = j[2]
-            return run_one(*j)
+            o = run_one(*j)
+            if not j[0].sq.alive():
+                return "squid-died " + " ".join(j[0].sq.log_has("assertion failed", "FATAL"))
+            return o
         except Exception as ex:
             return "driver-error " + str(ex)[:200].replace("\n", " ")
     with concurrent.futures.ThreadPoolExecutor(max_workers=16) as ex:
@@ -330,6 +338,8 @@ def oracle(s, obs):
     - a request without credentials that decode to user:password must get 407 and must not reach the origin;
     - a forwarded request must be logged under its own (lower-cased) user name;
     - a request whose own credentials the helper rejects must never be forwarded."""
+    if obs.startswith("squid-died"):
+        return ("oracle:squid-died", "squid stopped during the scenario: " + obs)
     if obs.startswith("driver-error"):
         return ("oracle:lab-driver-error", obs)
     toks = dict(t.split("=", 1) for t in obs.split())
